@@ -17,15 +17,18 @@ Fixpoint has_wide_alt (r : re) : bool :=
   | RSeq rs => existsb has_wide_alt rs
   | _ => false
   end.
-(* K1: a quantifier nested inside a quantifier, or a quantified alternation with >= 5 branches
-   (History memo under an enclosing loop; ForceProgress cut-off) *)
-Fixpoint k_nested_quant (r : re) : bool :=
+(* K1: a quantifier nested inside a quantifier, a quantified alternation with >= 5 branches, or a
+   quantifier over a body that can match empty (History memo under an enclosing loop; the
+   ForceProgress cut-off, which the repository's own test test_plus_inside_and_star_inside_capture_group
+   pins: a plus over a starred group followed by B must not match "AB") *)
+Fixpoint k_nested_quant0 (r : re) : bool :=
   match r with
-  | RQuant r' _ _ _ => has_quant r' || has_wide_alt r' || k_nested_quant r'
-  | RGroup _ r' | RNc r' => k_nested_quant r'
-  | RSeq rs | RAlt rs => existsb k_nested_quant rs
+  | RQuant r' _ _ _ => has_quant r' || has_wide_alt r' || k_nested_quant0 r'
+  | RGroup _ r' | RNc r' => k_nested_quant0 r'
+  | RSeq rs | RAlt rs => existsb k_nested_quant0 rs
   | _ => false
   end.
+Definition k_nested_quant (r : re) : bool := k_nested_quant0 r || negb (strict_ok r).
 
 Fixpoint has_zero_width (r : re) : bool :=
   match r with
